@@ -54,9 +54,111 @@ def make_tree(basis_list, topo, rng):
 
 SOLVES = []
 CTX = {}
+EVENTS = []
+REG = {}            # id(array) -> (key, current?)   key = (path tuple, slot) with slot -1 = environ_parent, g = environ_children[g]
+KEEP = []           # keeps every registered array alive so that ids are never reused
+TR = {"on": False, "ttns": None, "paths": None, "in_build": False}
+
+
+def node_paths(ttns):
+    out = {}
+
+    def rec(node, path):
+        out[ttns.node_idx[node]] = tuple(path)
+        for i, c in enumerate(node.children):
+            rec(c, path + [i])
+    rec(ttns.root, [])
+    return out
+
+
+def _register(arr, key):
+    for k, (kk, cur) in list(REG.items()):
+        if kk == key and cur:
+            REG[k] = (kk, False)
+    REG[id(arr)] = (key, True)
+    KEEP.append(arr)
+
+
+def _emit(kind, second, path):
+    EVENTS.extend([kind, second, len(path)] + list(path))
+
+
+def _log_reads(args):
+    for a in args:
+        if isinstance(a, np.ndarray) and id(a) in REG:
+            (path, slot), cur = REG[id(a)]
+            if cur:
+                _emit(1, slot, path)
+            else:
+                EVENTS.extend([9, 9, 0])        # a tensor that is no longer in the cache was used
+
+
+def install_trace():
+    import renormalizer.tn.tree as TT
+    import renormalizer.tn.hop_expr as HE
+    o_bc, o_bp, o_bce = TT.TTNEnviron.build_children_environ_node, TT.TTNEnviron.build_parent_environ_node, TT.TTNEnviron.build_children_environ
+    o_args, o_ce, o_upd = TT.asxp_oe_args, HE._contract_expression, TT.TTNS.update_2site
+
+    def bce(self, ttns, ttno):
+        if TR["on"]:
+            TR["ttns"] = ttns
+            TR["paths"] = node_paths(ttns)
+            _register(self.root.environ_parent, ((), -1))
+        return o_bce(self, ttns, ttno)
+
+    def bc(self, snode, ttns, ttno):
+        if not TR["on"] or snode.parent is None:
+            return o_bc(self, snode, ttns, ttno)
+        TR["in_build"] = True
+        try:
+            res = o_bc(self, snode, ttns, ttno)
+        finally:
+            TR["in_build"] = False
+        enode = self.node_list[ttns.node_idx[snode]]
+        ich = snode.parent.children.index(snode)
+        ppath = TR["paths"][ttns.node_idx[snode.parent]]
+        if len(enode.parent.environ_children) > ich:
+            _register(enode.parent.environ_children[ich], (ppath, ich))
+            _emit(2, ich, ppath)
+        else:
+            EVENTS.extend([9, 8, 0])
+        return res
+
+    def bp(self, snode, ichild, ttns, ttno):
+        if not TR["on"]:
+            return o_bp(self, snode, ichild, ttns, ttno)
+        TR["in_build"] = True
+        try:
+            res = o_bp(self, snode, ichild, ttns, ttno)
+        finally:
+            TR["in_build"] = False
+        enode = self.node_list[ttns.node_idx[snode]]
+        cpath = TR["paths"][ttns.node_idx[snode.children[ichild]]]
+        _register(enode.children[ichild].environ_parent, (cpath, -1))
+        _emit(2, -1, cpath)
+        return res
+
+    def args_hook(args):
+        if TR["on"] and TR["in_build"]:
+            _log_reads(args)
+        return o_args(args)
+
+    def ce(args, x_shape, x_indices, y_indices):
+        if TR["on"]:
+            _log_reads(args)
+        return o_ce(args, x_shape, x_indices, y_indices)
+
+    def upd(self, node, tensor, m=None, percent=0, cano_parent=True):
+        if TR["on"] and self is TR["ttns"]:
+            _emit(4, 1 if cano_parent else 0, TR["paths"][self.node_idx[node]])
+        return o_upd(self, node, tensor, m, percent, cano_parent)
+
+    TT.TTNEnviron.build_children_environ_node, TT.TTNEnviron.build_parent_environ_node, TT.TTNEnviron.build_children_environ = bc, bp, bce
+    TT.asxp_oe_args, HE._contract_expression, TT.TTNS.update_2site = args_hook, ce, upd
 
 
 def install():
+    install_trace()
     orig = TG.optimize_2site
 
     def hook(snode, ttns, ttno, ttne):
@@ -64,6 +166,8 @@ def install():
         rec = {"e": float(e)}
         try:
             hd, sector, order = CTX["hd"], CTX["sector"], CTX["order"]
+            was = TR["on"]
+            TR["on"] = False
             trial = ttns.copy()
             idx = ttns.node_idx[snode]
             tnode = trial.node_list[idx]
@@ -77,7 +181,11 @@ def install():
             rec["mask_dim"] = int(np.sum(ttns.get_qnmask(snode, include_parent=True)))
         except Exception:
             rec["hook_error"] = traceback.format_exc()[-1200:]
+        finally:
+            TR["on"] = was
         SOLVES.append(rec)
+        if TR["on"] and ttns is TR["ttns"]:
+            _emit(3, 0, TR["paths"][ttns.node_idx[snode]])
         return e, c
     TG.optimize_2site = hook
 
@@ -123,7 +231,12 @@ def run_case(case):
         out["skip"] = "setup: " + traceback.format_exc()[-800:]
         return out
     SOLVES.clear()
+    EVENTS.clear()
+    REG.clear()
+    KEEP.clear()
     CTX.update(hd=hd, sector=sector, order=basis_list)
+    out["shape"] = [len(nd.children) for nd in ttns.node_list]          # preorder child counts
+    TR.update(on=True, ttns=None, paths=None, in_build=False)
     try:
         es = TG.optimize_ttns(ttns, ttno, [[int(m), float(p)] for m, p in case["procedure"]])
         out["ok"] = True
@@ -131,6 +244,8 @@ def run_case(case):
     except Exception:
         out["ok"] = False
         out["crash"] = traceback.format_exc()[-1500:]
+    TR["on"] = False
+    out["trace"] = list(EVENTS)
     out["solves"] = list(SOLVES)
     if out.get("ok"):
         try:
